@@ -9,8 +9,11 @@
 
 #include "search.h"
 
+#include <atomic>
+#include <chrono>
 #include <iostream>
 #include <sstream>
+#include <thread>
 
 using namespace engine;
 using orc::Board;
@@ -33,6 +36,7 @@ bool g_root_changed = false;
 std::string g_root_changed_what;
 long g_point[verif::POINT_NUM];
 
+extern std::atomic<long> g_progress;
 long g_root_in_iter = 0;
 bool g_root_loop = false;
 long g_iter_end_visits[16] = {0};
@@ -40,6 +44,7 @@ long g_iter_end_visits[16] = {0};
 void hook(verif::Point p, const verif::Ctx& c)
 {
     g_point[p]++;
+    g_progress++;
     if (p == verif::ITER_BEGIN) g_root_in_iter = 0;
     if (p == verif::ITER_END && c.a >= 0 && c.a < 16) g_iter_end_visits[c.a] = g_visits;
     if (p == verif::NODE || p == verif::QNODE)
@@ -73,6 +78,33 @@ void hook(verif::Point p, const verif::Ctx& c)
         {
             g_root_changed = true;
             g_root_changed_what = c.position->fen();
+        }
+    }
+}
+
+// A deadlock inside Search::go() (e.g. an output lock left held) would hang this single-threaded monitor for good.
+// A watchdog thread turns it into a verdict with a logical witness: inside go(), and not one node visit, schedule point
+// or output byte for 60 s. It prints the case and leaves with a distinctive status.
+std::atomic<long> g_progress{0};
+std::atomic<bool> g_in_go{false};
+
+void watchdog()
+{
+    long last = -1;
+    int still = 0;
+    for (;;)
+    {
+        std::this_thread::sleep_for(std::chrono::seconds(1));
+        long now = g_progress.load();
+        if (g_in_go.load() && now == last) ++still;
+        else still = 0;
+        last = now;
+        if (still >= 60)
+        {
+            const char* msg = "\nVERIF-HANG inside Search::go(): no node visit or schedule point for 60 s\n";
+            (void)!write(2, msg, strlen(msg));
+            vh::print_case_async();
+            _exit(43);
         }
     }
 }
@@ -148,7 +180,9 @@ RunResult run_go(Rig& rig, const Position& P, const Board& B, const GoSpec& g, l
     long iter_done_before = g_point[verif::ITER_END];
     {
         Search s(P, lim, rig.scorer, rig.table);
+        g_in_go = true;
         s.go();
+        g_in_go = false;
     }
     std::cout.rdbuf(old);
     RunResult r;
@@ -459,6 +493,7 @@ int main(int argc, char** argv)
     RNG = &rng;
     glue::init_engine();
     verif::g_callback.store(hook);
+    std::thread(watchdog).detach();
     Rig* rig = new Rig;
     long n = args.num("searches", 100);
     int maxdepth = int(args.num("maxdepth", 5));
